@@ -880,8 +880,16 @@ def check_oracle(ck, case, real):
                 viol(f"not-rejected: get_info({r['name']!r}) gave {r['info']} for template {tpl_str(case['toks'])!r}")
     # soundness of every accepted name (templates without star and without repeated placeholders)
     phs = [tuple(t) for t in case["toks"] if t[0] != "L"]
-    if len(set(phs)) == len(phs) and not any(t[0] == "S" for t in case["toks"]):
-        import re
+    import re
+
+    def self_contained(r):
+        """a non-plain regex still leaves the structure of the whole pattern intact"""
+        try:
+            return re.compile("(?:" + regex_src(r) + ")").groups == 0
+        except re.error:
+            return False
+    if len(set(phs)) == len(phs) and not any(t[0] == "S" for t in case["toks"]) \
+            and all(plain(r) or self_contained(r) for r in case["env"].values()):
         for r in real["names"]:
             if r["parse"][0] != "ok":
                 continue
@@ -898,7 +906,11 @@ def check_oracle(ck, case, real):
                         ok = False
                         break
                     rx = r"\d{%d}" % WIDTH[t[1]] if t[0] in "TE" else regex_src(case["env"].get(t[1], ["P"]))
-                    if not re.fullmatch("(?:" + rx + ")", v, re.ASCII) and not (v.endswith("\n")):
+                    try:
+                        full = re.fullmatch("(?:" + rx + ")", v, re.ASCII)
+                    except re.error:
+                        full = True                     # invalid regex (outside the claim): nothing to check
+                    if not full and not (v.endswith("\n")):
                         ok = False
                     rebuilt.append(v)
             rb = "".join(rebuilt)
